@@ -240,7 +240,15 @@ def _e2e(ctx, modes, fn_name='filter_case', gen_mode=None, label=None):
     for mode in modes:
         n = E2E_COUNTS[ctx.tier][mode]
         t0 = time.time()
-        cases = e2e.gen_cases(gen_mode or mode, ctx.seed, n)
+        prefer = ctx.spec.get('e2e_prefer') if mode == 'filter' and fn_name == 'filter_case' else None
+        if prefer:
+            # the property is about particular options: draw four times as many option sets and keep those that use them
+            # (cases using several of them first), filling up with the rest
+            pool = e2e.gen_cases(gen_mode or mode, ctx.seed, 4 * n)
+            score = lambda c: -sum(1 for f in prefer if f in c['cli'])
+            cases = sorted(pool, key=lambda c: (score(c), c['id']))[:n]
+        else:
+            cases = e2e.gen_cases(gen_mode or mode, ctx.seed, n)
         results = e2e.run_pool(getattr(e2e, fn_name), cases)
         known_classes = {kf.get('class'): kf for kf in C.load_known_findings() if kf['kind'] == 'finding' and kf.get('property') == pid}
         dist, errors, mine, others = {}, [], [], 0
